@@ -22,3 +22,11 @@ func Run(cfg Config) *hx.Result {
 	r.OracleFail(hx.Case{Sig: "C02 is not served for the root module", Op: "-", Impl: "-"})
 	return r
 }
+
+// RunExcluded (harness prop C07G, property C07 through the generated bindings): v2 only, as above.
+func RunExcluded(cfg Config) *hx.Result {
+	r := hx.NewResult("C07", cfg.Module, cfg.Seed, cfg.Tier)
+	r.Rule = "not served for the root module"
+	r.OracleFail(hx.Case{Sig: "C07G is not served for the root module", Op: "-", Impl: "-"})
+	return r
+}
